@@ -178,6 +178,10 @@ func runsFor(prop, tier string) []run {
 				c.WBlocks = []int{0, 2}
 				return c
 			}(), pick(26, 30), minutes(pickf(1.2, 8))},
+			{"overlapping-admissions-model-nodes", func() eb.Cfg {
+				c := eb.Cfg{RF: 3, N: 4, Alphabet: []string{"AddB", "AddF", "Sync", "Verify", "W0", "R", "MonFail", "Restart"}, Oracles: or, Drain: true, MaxWrites: 2, MaxReads: 1, MaxAdds: 4, MaxRestarts: 1, MaxFaults: 1, InitOps: started}
+				return c
+			}(), pick(6, 8), minutes(pickf(0.4, 3))},
 			{"rebuild-killed-at-every-gate-then-retried", mk(withData, []string{"RB", "Step", "Kill", "MonFail", "W0"}, 3, 1, 0, 4), pick(30, 60), minutes(pickf(1.0, 10))},
 		}
 	case "C16ctl":
@@ -196,9 +200,15 @@ func runsFor(prop, tier string) []run {
 				MaxWrites: 2, MaxSnaps: 3, MaxAdds: 3, MaxFaults: 2, InitOps: init}
 		}
 		full := append(append([]string{}, rw2...), "W:0", "Snap:0", "W:0", "Snap:0")
+		// two leave/re-add cycles leave automatic snapshots between the base and the checkpoint: real cleaner loop, tick by tick
+		cyc := []string{"Reg:0", "Reg:1", "Start:0", "W:0", "Add:1", "Sync:1", "Verify:1", "W:0", "Remove:1", "Restart:1", "Add:1", "Sync:1", "Verify:1", "W:0",
+			"Remove:1", "Restart:1", "Add:1", "Sync:1", "Verify:1", "W:0", "Cleaners"}
+		clean := eb.Cfg{RF: 2, N: 2, Alphabet: []string{"Tick", "TickF", "W0", "DelSnap", "Snap"}, Oracles: []string{"c11", "c02", "c18"}, Drain: true, Real: true,
+			MaxWrites: 5, MaxSnaps: 1, MaxFaults: 2, InitOps: cyc}
 		return []run{
-			{"rf2-from-2rw-two-user-snapshots", mk(full), pick(4, 5), minutes(pickf(1.0, 6))},
-			{"rf2-from-2rw", mk(rw2), pick(4, 6), minutes(pickf(0.6, 5))},
+			{"rf2-from-2rw-two-user-snapshots", mk(full), pick(4, 5), minutes(pickf(0.8, 6))},
+			{"rf2-from-2rw", mk(rw2), pick(4, 6), minutes(pickf(0.5, 5))},
+			{"rf2-real-cleaner-loop-tick-by-tick", clean, pick(4, 5), minutes(pickf(0.8, 5))},
 		}
 	case "C19":
 		src2 := []string{"Reg:0", "Start:0", "W:0", "Snap:0", "W:0", "Snap:0", "W:0"}
